@@ -80,6 +80,8 @@ class StubDtls:
                 continue
             self.current_corrupted = corrupted
             self.handled += 1
+            if corrupted:
+                self.world.probes["corrupted_datagrams_handled"] += 1
             try:
                 await recv._handle_data(data)
             except asyncio.CancelledError:
@@ -232,8 +234,12 @@ def generate(ch, profile):
         cfg["a2b"] = Profile(base=ch.choice("cfg", [0.001, 0.05])).to_json()
         cfg["b2a"] = Profile(base=ch.choice("cfg", [0.001, 0.05])).to_json()
     else:
-        cfg["a2b"] = random_profile(ch, "cfg").to_json()
-        cfg["b2a"] = random_profile(ch, "cfg").to_json()
+        cfg["a2b"] = random_profile(ch, "cfg", allow_corrupt=(profile == "c08")).to_json()
+        cfg["b2a"] = random_profile(ch, "cfg", allow_corrupt=(profile == "c08")).to_json()
+        if profile == "c08":
+            # bit bursts in transit on a share of datagrams in both directions
+            for d in ("a2b", "b2a"):
+                cfg[d]["corrupt"] = max(cfg[d]["corrupt"], ch.choice("cfg", [0.02, 0.1, 0.3]))
         if ch.chance("cfg", 0.25):
             # one-way blackout (acks lost -> T3) somewhere in the fault phase
             t0 = ch.uniform("cfg", 0.0, 20.0)
@@ -454,7 +460,7 @@ class World:
             orig_rc = sctp._receive_chunk
 
             async def rc_wrap(chunk, _orig=orig_rc, _side=side):
-                if self.dtls[_side].current_corrupted:
+                if self.dtls[_side].current_corrupted and self.dtls[_side].current_corrupted != "trunc":
                     self.violation("C08", "corrupted-datagram-reached-chunk-processing",
                                    "side=%s chunk=%r" % (_side, chunk))
                 return await _orig(chunk)
